@@ -200,6 +200,9 @@ def run_job(unit, job, cfile, scratch, canary=False):
     if results is None:
         res["detail"] = "cbmc gave no result list (rc=%s): %s" % (rc, " | ".join(msgs[-6:]) + err[-800:])
         return res
+    # C++14 [expr.shift] (CWG 1457): a signed left shift whose result fits the corresponding unsigned type is defined;
+    # cbmc's C rule would flag e.g. (uint8_t)63 << 26.  These obligations are dropped (shift-distance checks stay on).
+    results = [r for r in results if "arithmetic overflow on signed shl" not in (r.get("description") or "")]
     ign = [m for m in msgs if "ignoring" in m]
     if ign:
         res["detail"] = "cbmc ignored a construct: " + ign[0]
